@@ -88,7 +88,7 @@ def _history_cases(draw, tier):
             steps.append({"op": "rem", "sel": draw(st.integers(0, 63)), "cnt": draw(st.integers(0, 7)),
                           "two": draw(st.booleans()), "sel2": draw(st.integers(0, 63)), "cnt2": draw(st.integers(0, 7)),
                           "form": draw(st.sampled_from(["ops", "method"]))})
-    return {"defn": d, "steps": steps}
+    return {"defn": d, "steps": steps, "fork": draw(st.integers(0, 3)) == 0}
 
 
 def _orig_points_close(ctx, obj, orig_pts, tag, what, noise=0.0):
@@ -111,6 +111,7 @@ def check_history(case, ctx):
     removed_any = full_restore = r2 = onknot = False
     nrem = 0
     noise = 0.0          # accumulated conditioning bound of the removals done so far (see removal_noise)
+    source = src_views = None
     for st_ in case["steps"]:
         kvs, szs = build.kvs_of(obj), build.sizes_of(obj)
         if st_["op"] == "ins":
@@ -145,6 +146,13 @@ def check_history(case, ctx):
         live = [e for e in ledger if e[2] > 0]
         if not live:
             continue
+        if case.get("fork") and source is None:
+            # the removals are made on a deep copy; the refined shape it was copied from keeps its net and its views
+            import copy
+            _ = obj.ctrlpts, (obj.weights if obj.rational else None)
+            source, obj = obj, copy.deepcopy(obj)
+            src_views = (build.snapshot(source), [list(q) for q in source.ctrlpts], list(source.weights) if source.rational else None)
+            ctx.label("removals-on-a-deep-copy")
         e1 = live[st_["sel"] % len(live)]
         picks = [(e1, 1 + st_["cnt"] % e1[2])]
         if st_["two"]:
@@ -180,6 +188,16 @@ def check_history(case, ctx):
         for s_ in nszs:
             total *= s_
         ctx.check(len(build.stored_points(obj)) == total, "net-count", "control net has %d points for sizes %r" % (len(build.stored_points(obj)), nszs))
+        if obj.rational:
+            # the net shrank: the unweighted points and the weights shrink with it (either view may be read first)
+            if nrem % 2:
+                Wv, Pv = list(obj.weights), [list(q) for q in obj.ctrlpts]
+            else:
+                Pv, Wv = [list(q) for q in obj.ctrlpts], list(obj.weights)
+            ctx.check(len(Pv) == total and len(Wv) == total, "net-views-size", "after the removal ctrlpts has %d and weights %d entries for a net of %d" % (len(Pv), len(Wv), total))
+        if source is not None:
+            now = (build.snapshot(source), [list(q) for q in source.ctrlpts], list(source.weights) if source.rational else None)
+            ctx.check(now == src_views, "copy-source-changed", "after a removal from a deep copy the source reports %d control points (%d before)" % (len(now[1]), len(src_views[1])))
         lat = shape.obj_lattice(obj, extras=[[e[1] for e in ledger if e[0] == k] for k in range(pdim)])
         shape.same_shape(ctx, R, obj, lat, "shape-changed", "after removing %r x%r via %s (removal #%d)" % (params, nums, st_["form"], nrem),
                          rel=max(1e-9, noise))
@@ -218,6 +236,24 @@ def check_refine_remove(case, ctx):
     dens = [0] * pdim
     dens[k] = 1
     operations.refine_knotvector(obj, dens)
+    twin_mode = False
+    if pdim >= 2 and k < 2 and d["degree"][0] == d["degree"][1] and d["kv"][0] == d["kv"][1]:
+        # both twin directions refined alike; the shape is then rebuilt from its stored definition the way a caller holding ONE
+        # knot vector list would do it (the same list object handed to both setters)
+        dens2 = [0] * pdim
+        dens2[1 - k] = 1
+        operations.refine_knotvector(obj, dens2)
+        snap = build.snapshot(obj)
+        o2 = obj.__class__(normalize_kv=bool(d.get("normalize", True)))
+        for nm, val in zip(("degree_u", "degree_v", "degree_w"), snap["degree"]):
+            setattr(o2, nm, val)
+        o2.set_ctrlpts([list(q) for q in snap["pts"]], *snap["size"])
+        shared = list(snap["kv"][0])
+        for i_, nm in enumerate(("knotvector_u", "knotvector_v", "knotvector_w")[:pdim]):
+            setattr(o2, nm, shared if snap["kv"][i_] == shared else list(snap["kv"][i_]))
+        obj = o2
+        twin_mode = True
+        ctx.label("twin-directions-sharing-one-list")
     kv0 = orig["kv"][k]
     kv1 = build.kvs_of(obj)[k]
     # removable copies per distinct interior knot = multiplicity now - multiplicity originally
@@ -236,13 +272,19 @@ def check_refine_remove(case, ctx):
         c = extra if case["all"] else 1 + case["cnt"] % extra
         params, nums = [None] * pdim, [0] * pdim
         params[k], nums[k] = u, c
-        before = build.kvs_of(obj)[k]
+        before_all = build.kvs_of(obj)
+        before = before_all[k]
         operations.remove_knot(obj, params, nums)
+        for j_, (x, y) in enumerate(zip(before_all, build.kvs_of(obj))):
+            ctx.check(j_ == k or x == y, "other-direction-changed", "removing %r x%d in direction %d changed the knot vector of direction %d: %r -> %r" % (u, c, k, j_, x, y))
         want = shape.kv_minus(before, u, c)
         ctx.check(want is not None and shape.kv_close(build.kvs_of(obj)[k], want), "knot-vector", "after removing %r x%d the knot vector is %r, expected %r" % (u, c, build.kvs_of(obj)[k], want))
         lat = shape.obj_lattice(obj)
         shape.same_shape(ctx, R, obj, lat, "shape-changed", "refine then remove %r x%d (dir %d)" % (u, c, k))
-    if case["all"]:
+    if case["all"] and twin_mode:
+        # the other twin direction stays refined here; only the direction that was cleaned up is back to its original knots
+        ctx.check(shape.kv_close(build.kvs_of(obj)[k], orig["kv"][k]), "knot-vector-not-restored", "refinement of direction %d fully removed but its knot vector differs" % k)
+    elif case["all"]:
         ctx.check(all(shape.kv_close(x, y) for x, y in zip(build.kvs_of(obj), orig["kv"])), "knot-vector-not-restored", "refinement fully removed but knot vectors differ")
         _orig_points_close(ctx, obj, orig["pts"], "control-points-not-restored", "refine then remove everything")
 
@@ -279,7 +321,10 @@ def check_helper(case, ctx):
         raise Skip("removal of a knot too close to the start of its supports is ill-conditioned")
     ctx.label("conditioning-widened-tolerance", noise > 1e-8)
     cp2 = helpers.knot_removal(p, kv1, cp1, u, num=rr, s=s1, span=span1)
+    kv1_keep = list(kv1)
     kv2 = helpers.knot_removal_kv(kv1, span1, rr)
+    ctx.label("helper-modified-its-knot-vector-argument", list(kv1) != kv1_keep)          # observed only: the property makes no claim about it
+    kv1 = kv1_keep
     ctx.nt(rr >= 2, "removal-count>=2")
     ctx.nt(s >= 1, "inserted-on-existing-knot")
     ctx.nt(build.varied_weights(d), "rational-varied")
